@@ -14,7 +14,7 @@ from vmon.libutil import monitored
 
 LEVEL = "exploration"
 SHARDS = {"quick": 8, "thorough": 16}
-MUST = ["describe.runs", "parse.runs", "parse.index_valid", "parse.index_out_of_range", "files.empty", "files.truncated",
+MUST = ["recorder.rows", "recorder.pprint", "recorder.console", "describe.runs", "parse.runs", "parse.index_valid", "parse.index_out_of_range", "files.empty", "files.truncated",
         "n.le10", "n.gt10"]
 RULE = ("case = (packet file of n packets, command, packet index); the recorded rows / pretty-printed object / console "
         "messages are compared with the expectation computed from the packet list: every row once in order for "
@@ -79,7 +79,37 @@ def nclass(n):
     return "0" if n == 0 else "1" if n == 1 else "2..5" if n <= 5 else "6..9" if n <= 9 else "10" if n == 10 else "11" if n == 11 else "12+"
 
 
-def run(ctx):
+class Buffered:
+    """violations are buffered and only reported if the recorders observed the renderer boundary at all during the run
+    (if the CLI were refactored to render differently, the recorders would see nothing: that is inconclusive, not a violation)"""
+
+    def __init__(self, ctx):
+        self.ctx, self.buf = ctx, []
+
+    def violation(self, *a, **kw):
+        self.buf.append((a, kw))
+
+    def __getattr__(self, name):
+        return getattr(self.ctx, name)
+
+    def flush(self):
+        from vmon.core import HarnessError
+        seen = self.ctx.counters["recorder.rows"] + self.ctx.counters["recorder.pprint"] + self.ctx.counters["recorder.console"]
+        if self.buf and seen == 0:
+            raise HarnessError("the CLI recorders observed no add_row/pprint/console.print call in the whole run")
+        for a, kw in self.buf:
+            self.ctx.violation(*a, **kw)
+
+
+def run(real_ctx):
+    ctx = Buffered(real_ctx)
+    try:
+        _run(ctx)
+    finally:
+        ctx.flush()
+
+
+def _run(ctx):
     from click.testing import CliRunner
     from space_packet_parser import cli, packets
     holder = {"rec": Rec(), "budget": 10}
@@ -121,6 +151,9 @@ def run(ctx):
         holder["budget"] = len(data) // 7 + 2
         full = [a if a != "FILE" else path for a in args]
         res = monitored(runner.invoke, cli.spp, ["--quiet"] + full)
+        ctx.count("recorder.rows", len(holder["rec"].rows))
+        ctx.count("recorder.pprint", len(holder["rec"].pprinted))
+        ctx.count("recorder.console", len(holder["rec"].printed))
         return holder["rec"], res
 
     def describe(data, fclass):
